@@ -59,13 +59,14 @@ def lead_sensitive_module():
         params.add("E", value=3e3, min=0)
         params.add("R", value=10e-6, min=0, vary=False)
         params.add("nu", value=.5, min=0, max=0.5, vary=False)
+        params.add("_gain", value=1.0, min=0.1, max=10, vary=False)
         params.add("contact_point", value=0)
         params.add("baseline", value=0)
         return params
 
-    def model_func(delta, E, R, nu, contact_point=0, baseline=0):
+    def model_func(delta, E, R, nu, _gain=1.0, contact_point=0, baseline=0):
         lead = max(float(delta[0]) - contact_point, 0.0) if delta.size else 0.0
-        factor = 1.0 + lead / (lead + 1e-6)
+        factor = _gain * (1.0 + lead / (lead + 1e-6))
         depth = contact_point - delta
         depth = np.where(depth > 0, depth, 0.0)
         return factor * 4 / 3 * E / (1 - nu ** 2) * np.sqrt(R) * depth ** 1.5 + baseline
@@ -75,10 +76,10 @@ def lead_sensitive_module():
     m.model_doc = "Hertz with a record-start dependent amplitude (verification harness)"
     m.model_key = "verif_lead"
     m.model_name = "verif: lead sensitive"
-    m.parameter_keys = ["E", "R", "nu", "contact_point", "baseline"]
-    m.parameter_names = ["Young's Modulus", "Tip Radius", "Poisson's Ratio", "Contact Point",
+    m.parameter_keys = ["E", "R", "nu", "_gain", "contact_point", "baseline"]
+    m.parameter_names = ["Young's Modulus", "Tip Radius", "Poisson's Ratio", "Hidden Gain", "Contact Point",
                          "Force Baseline"]
-    m.parameter_units = ["Pa", "m", "", "m", "N"]
+    m.parameter_units = ["Pa", "m", "", "", "m", "N"]
     m.valid_axes_x = ["tip position"]
     m.valid_axes_y = ["force"]
     return m
